@@ -30,10 +30,11 @@ Proof. exact tokens_agree_proof. Qed.
 Print Assumptions tokens_agree.
 
 (* the hypothesis is satisfiable on nested lists holding a string literal with
-   a parenthesis, a quoted symbol with a space, comments and an empty list *)
+   a parenthesis, a quoted symbol with a space, comments (one ended by CR) and
+   an empty list *)
 Example parse_w_ex :
-  let es := [T [L [97%N; cDQ]; L [cDQ; cLP; cDQ; cDQ; cDQ];
-                L [cSEMI; 120%N; cRP; cLF];
+  let es := [T [L [97%N; 35%N]; L [cDQ; cLP; cDQ; cDQ; cDQ];
+                L [cSEMI; 120%N; cRP; cLF]; L [cSEMI; 121%N; cCR];
                 T [T []; L [cBAR; cSP; cDQ; cBAR]; L [98%N]]];
              L [cSEMI; cLF]; T [L [99%N]; L [100%N]]] in
   forallb wf es = true /\
